@@ -42,11 +42,7 @@ Theorem c19_failed_save_keeps_old :
     save_ok k bufs f leak = false ->
     stop_prefix p (save_calls k bufs f leak) ->
     lookup (key_name k) (run d p) = lookup (key_name k) d /\ load k (run d p) = load k d.
-Proof.
-  intros d k bufs f leak p _ E H.
-  pose proof (failed_save_keeps_old_lemma d k bufs f leak p E H) as A.
-  split; [exact A | unfold load; rewrite A; reflexivity].
-Qed.
+Proof. intros d k bufs f leak p _. apply failed_save_keeps_old_both. Qed.
 Print Assumptions c19_failed_save_keeps_old.
 
 (* A Save that returns nil: the calls are  a ++ fsync(spool) :: b ++ [rename(spool, key)]
@@ -96,10 +92,7 @@ Theorem c19_list_subset_loadable :
     store_dir d ->
     stop_prefix p (op_calls o) ->
     In k' (list_keys (run d p)) -> exists v, load k' (run d p) = Some v.
-Proof.
-  intros d o p k' S H. eapply list_subset_loadable_lemma; [exact S | | exact H].
-  eapply calls_on_weaken; [apply key_names_store | apply op_calls_on].
-Qed.
+Proof. exact op_list_subset_loadable. Qed.
 Print Assumptions c19_list_subset_loadable.
 
 (* In a store directory List reports exactly the loadable keys below 2^17. *)
@@ -121,15 +114,7 @@ Theorem c19_frame :
     lookup (spool_name k') (run d p) = lookup (spool_name k') d /\
     load k' (run d p) = load k' d /\
     (In k' (list_keys (run d p)) <-> In k' (list_keys d)).
-Proof.
-  intros d o p k' S H D.
-  pose proof (stop_prefix_calls_on _ _ _ H (op_calls_on o)) as C.
-  split; [|split; [|split]].
-  - apply (frame_lookup _ _ C k' _ d D). left. reflexivity.
-  - apply (frame_lookup _ _ C k' _ d D). right. reflexivity.
-  - apply (frame_load _ _ C k' d D).
-  - apply (frame_listed _ _ d k' S C D).
-Qed.
+Proof. exact op_frame. Qed.
 Print Assumptions c19_frame.
 
 (* The system calls of two operations on different keys commute in every interleaving:
@@ -141,10 +126,7 @@ Theorem c19_interleavings_commute :
     merge (op_calls o1) (op_calls o2) m ->
     dir_equiv (run d m) (run (run d (op_calls o1)) (op_calls o2)) /\
     dir_equiv (run d m) (run (run d (op_calls o2)) (op_calls o1)).
-Proof.
-  intros d o1 o2 m D M.
-  exact (interleave_commute_lemma _ _ _ _ m d D (op_calls_on o1) (op_calls_on o2) M).
-Qed.
+Proof. exact op_interleavings_commute. Qed.
 Print Assumptions c19_interleavings_commute.
 
 (* Concurrently: stop anywhere in any interleaving of two operations on different keys;
@@ -168,10 +150,7 @@ Theorem c19_names :
   (forall k k', key_name k <> spool_name k') /\
   (forall k, k < key_limit -> parse_key (key_name k) = Some k) /\
   (forall k, parse_key (spool_name k) = None).
-Proof.
-  repeat split; [exact key_name_inj | exact spool_name_inj | exact key_ne_spool
-                 | exact parse_key_name_small | exact parse_key_spool].
-Qed.
+Proof. exact names_lemma. Qed.
 Print Assumptions c19_names.
 
 (* a Save that returned nil is reported by List and returned by Load *)
@@ -205,6 +184,27 @@ Example c19_witness :
   /\ lookup (spool_name 65546) (run d lf) = None
   /\ list_keys (run d l) = [65546; 3].
 Proof. cbv zeta. split; [apply stop_prefix_cut_bytes|]. vm_compute. repeat split. Qed.
+
+(* Two operations on different keys: Save of key 1 and Delete of key 2, their calls
+   interleaved, stopped one byte into the data write; the directory is a store directory. *)
+Example c19_witness_interleaving :
+  let d := [ (key_name 1, mkfile [7] true); (key_name 2, mkfile [8; 8] true) ] in
+  let o1 := OpSave 1 [[4; 5]] NoFault false in
+  let o2 := OpDelete 2 in
+  let sp := spool_name 1 in
+  let m := [Creat sp; Write sp [4; 5]; Unlink (key_name 2); Fsync sp; Close sp; Rename sp (key_name 1)] in
+  let p := [Creat sp; Write sp [4]] in
+  store_dir d /\ op_key o1 <> op_key o2 /\ merge (op_calls o1) (op_calls o2) m /\ stop_prefix p m
+  /\ load 1 (run d p) = Some [7] /\ load 2 (run d p) = Some [8; 8]
+  /\ load 1 (run d m) = Some [4; 5] /\ load 2 (run d m) = None.
+Proof.
+  cbv zeta. split; [|split; [|split; [|split]]].
+  - intros n f [H|[H|[]]]; inversion H; subst; eexists; left; reflexivity.
+  - cbn [op_key]. discriminate.
+  - vm_compute. repeat constructor.
+  - constructor. apply (sp_write (spool_name 1) [4; 5] 1).
+  - vm_compute. repeat split.
+Qed.
 
 (* Why the theorems about List are for store-created names: a foreign file named "0ABCD"
    is reported as key 0xabcd, which Load (opening "0abcd") does not find. *)
